@@ -97,7 +97,7 @@ func runC18(c *Ctx) {
 	if c.Thorough() {
 		sizes = append(sizes, 6, 10, 12, 127, 128, 129, 255, 256, 257, 5000, 65536, 100000)
 	}
-	reps := c.N(3, 25)
+	reps := c.N(3, 16)
 	stream := uint64(0)
 	for rep := 0; rep < reps; rep++ {
 		for _, nc := range sizes {
